@@ -15,7 +15,7 @@ from ..model import leaftypes as LT
 from ..model import trees as TM
 
 LEVEL = "exploration"
-TECHNIQUE = "runtime monitoring: pure-Python tree/leaf reference model decides verdict and bindings of isinstance(tree, PyTree[L]) under generated prior contexts; metamorphic laws PyTree[L]==PyTree[PyTree[L]], bare PyTree, top-level None"
+TECHNIQUE = "runtime monitoring: pure-Python tree/leaf reference model decides verdict and bindings of isinstance(tree, PyTree[L]) under generated prior contexts; metamorphic laws PyTree[L]==PyTree[PyTree[L]], bare PyTree, top-level None; leaf types incl. array types that are PyTree nodes, structured PyTrees (structure names tracked by the model) and NamedTuple classes; identity arm (mutated / temporary trees); annotations built while checking was off"
 LEVEL_TEXT = (
     "Held on every generated (prior context, leaf type, tree) explored: trees to depth 4 over tuple/list/dict/None/"
     "namedtuple/registered node/empty containers, 13 leaf types incl. unions, X|Y, tuples of arrays. Sampling, not proof."
